@@ -905,6 +905,18 @@ Section Proto.
     rewrite (Hold He) in Ho. discriminate.
   Qed.
 
+  (* responses as they are built (file sources read then): the upstream's image for every requested tile,
+     with or without expiry *)
+  Lemma response_in_complete reqs s p pr :
+    o_reload S = true -> GInv reqs s -> nth_error (procs s) p = Some pr -> p_pc pr = Done ->
+    response_in (cache s) pr = map (fun r => (r, Some (o_up S r))) (p_req pr).
+  Proof.
+    intros Hrl HG Hp Hd. destruct (g_pi _ _ HG _ _ Hp) as [_ [_ [_ Hpc]]]. rewrite Hd in Hpc. cbn [PIpc] in Hpc.
+    unfold response_in. apply map_ext_in. intros r Hr. destruct (Hpc r Hr) as [Hc Hh]. specialize (Hh Hrl).
+    unfold answer. unfold has_src in Hh. destruct (src_of (p_src pr) r) as [v|]; [|discriminate].
+    destruct (cached_lookup _ _ Hc) as [w Hw]. rewrite Hw. rewrite (g_ok _ _ HG _ _ Hw). reflexivity.
+  Qed.
+
   Lemma done_tiles_cached reqs s p pr r :
     GInv reqs s -> nth_error (procs s) p = Some pr -> p_pc pr = Done -> In r (p_req pr) -> cached (cache s) r = true.
   Proof.
@@ -1195,6 +1207,17 @@ Proof.
   exists v. split; [|exact Hok]. unfold response. apply in_map_iff. exists r. rewrite Hv. auto.
 Qed.
 
+Lemma grid_responses_built g up expire old c0 reqs sched p pr :
+  valid_gconf g -> valid_reqs g reqs -> content_ok up c0 -> old_ok expire old ->
+  let s := run (grid_sys_x g true true up expire old) (init c0 reqs) sched in
+  nth_error (procs s) p = Some pr -> p_pc pr = Done ->
+  exists req, nth_error reqs p = Some req /\ response_in (cache s) pr = map (fun r => (r, Some (up r))) req.
+Proof.
+  intros Hg Hr Hc Ho s Hp Hd. destruct (grid_reach g true up expire old c0 reqs sched Hg Hr Hc Ho) as [_ [_ HG]]. fold s in HG.
+  exists (p_req pr). split; [eapply nth_error_req; eassumption|].
+  apply (response_in_complete (grid_sys_x g true true up expire old) c0 (fun r => in_grid g r = true) reqs s p pr eq_refl HG Hp Hd).
+Qed.
+
 Lemma grid_unanswered_is_cached g reload up expire old c0 reqs sched p pr r :
   valid_gconf g -> valid_reqs g reqs -> content_ok up c0 -> old_ok expire old ->
   let s := run (grid_sys_x g true reload up expire old) (init c0 reqs) sched in
@@ -1315,6 +1338,19 @@ Example nv_refused :
   exists n, snd (step (grid_sys meta_grid true true up0) (run (grid_sys meta_grid true true up0) (init nv_c0 nv_reqs) (round_robin 3 n)) 1)
             = OLock (2, 2, 2)%Z false.
 Proof. exists 6%nat. vm_compute. reflexivity. Qed.
+
+(* expiry: tile (1,1,1) exists but is expired (old image 999); three requests; one upstream call; everybody is
+   answered (responses as built) with the new image; the first two looked at the expired file before *)
+Definition old1 (t : coord) : option Z := if coord_eqb t t111 then Some 999%Z else None.
+Example nv_expired :
+  let S := grid_sys_x single_grid true true up0 true old1 in
+  let s := run S (init [] [[t111]; [t111]; [t111]]) (round_robin 3 20) in
+  all_done s = true /\ fetched s = [t111] /\
+  map (response_in (cache s)) (procs s) = [[(t111, Some (up0 t111))]; [(t111, Some (up0 t111))]; [(t111, Some (up0 t111))]] /\
+  map response (procs s) = [[(t111, Some (up0 t111))]; [(t111, Some 999%Z)]; [(t111, Some 999%Z)]].
+Proof. vm_compute. repeat split; reflexivity. Qed.
+Example nv_old_ok : old_ok true old1.
+Proof. intros H. discriminate. Qed.
 
 Example nv_lock_name :
   lock_name (list_ascii_of_string "ab12") (12, 0, 3)%Z = list_ascii_of_string "ab12-12-0-3.lck".
